@@ -76,9 +76,18 @@ type ToolDef struct {
 	Kind string `json:"kind"` // inv | str | both
 }
 
+// ToolOut: a tool called with the argument string Args streams exactly Chunks (at least one,
+// any of them may be empty) and returns their concatenation when it is invoked; every other
+// argument string gives name(args), streamed as name, "(", args, ")"
+type ToolOut struct {
+	Args   string   `json:"args"`
+	Chunks []string `json:"chunks"`
+}
+
 type Case struct {
 	Tools        []ToolDef `json:"tools"`
 	FailArgs     []string  `json:"fail_args,omitempty"`
+	Outs         []ToolOut `json:"outs,omitempty"`
 	Handler      bool      `json:"handler,omitempty"`
 	RD           []string  `json:"rd,omitempty"`
 	MaxStep      int       `json:"max_step"`
@@ -315,18 +324,42 @@ func (t *recTool) record(ctx context.Context, name, args string, opts ...tool.Op
 	return true
 }
 
+// the chunks a tool streams for an argument string (their concatenation is what it returns when invoked)
+func (c *Case) toolChunks(name, args string) []string {
+	for _, o := range c.Outs {
+		if o.Args == args && len(o.Chunks) > 0 {
+			return o.Chunks
+		}
+	}
+	return []string{name, "(", args, ")"}
+}
+
 func (t *recTool) invoke(ctx context.Context, args string, opts ...tool.Option) (string, error) {
 	if !t.record(ctx, t.name, args, opts...) {
 		return "", &toolErr{}
 	}
-	return t.name + "(" + args + ")", nil
+	return strings.Join(t.c.toolChunks(t.name, args), ""), nil
 }
 
 func (t *recTool) stream(ctx context.Context, args string, opts ...tool.Option) (*schema.StreamReader[string], error) {
 	if !t.record(ctx, t.name, args, opts...) {
 		return nil, &toolErr{}
 	}
-	return schema.StreamReaderFromArray([]string{t.name, "(", args, ")"}), nil
+	chunks := append([]string{}, t.c.toolChunks(t.name, args)...)
+	if !t.c.PipeStream {
+		return schema.StreamReaderFromArray(chunks), nil
+	}
+	// a tool that really streams: an unbuffered pipe fed by its own goroutine
+	sr, sw := schema.Pipe[string](0)
+	go func() {
+		defer sw.Close()
+		for _, ch := range chunks {
+			if sw.Send(ch, nil) {
+				return
+			}
+		}
+	}()
+	return sr, nil
 }
 
 type invTool struct{ recTool }
@@ -907,7 +940,7 @@ func (c *Case) specRunWith(stopAt int, callOpts bool) (o RunObs) {
 					failed = true
 				}
 			}
-			out := cl.Name + "(" + cl.Args + ")"
+			out := strings.Join(c.toolChunks(cl.Name, cl.Args), "")
 			if kindIn(defs, cl.Name) == "" {
 				out = "unk:" + cl.Name + ":" + cl.Args
 			}
@@ -1204,6 +1237,17 @@ func (c *Case) coq(runs []string) string {
 	for i, f := range c.RD {
 		rd[i] = S(f)
 	}
+	outs := make([]string, 0, len(c.Outs))
+	for _, o := range c.Outs {
+		if len(o.Chunks) == 0 {
+			continue
+		}
+		cs := make([]string, len(o.Chunks))
+		for i, ch := range o.Chunks {
+			cs[i] = S(ch)
+		}
+		outs = append(outs, lib.CoqPair(S(o.Args), lib.CoqList(cs)))
+	}
 	persona := "None"
 	if c.Persona != "" {
 		persona = lib.CoqSome(S(c.Persona))
@@ -1233,7 +1277,7 @@ func (c *Case) coq(runs []string) string {
 	case "window":
 		mod = "2"
 	}
-	return lib.CoqApp("mkCase", tdefs(c.Tools), toolList, lib.CoqList(fa), lib.CoqBool(c.Handler), lib.CoqList(rd),
+	return lib.CoqApp("mkCase", tdefs(c.Tools), toolList, lib.CoqList(fa), lib.CoqList(outs), lib.CoqBool(c.Handler), lib.CoqList(rd),
 		lib.CoqNat(c.MaxStep), lib.CoqNat(c.RuntimeMax), lib.CoqBool(c.Checker != "exact"), persona, "("+mod+"%N)", coqMsgs(c.Input),
 		lib.CoqList(script), lib.CoqList(cbt), lib.CoqList(runs))
 }
@@ -1243,6 +1287,22 @@ func (c *Case) coq(runs []string) string {
 var toolPool = []string{"search", "calc", "final", "lookup"}
 var wordPool = []string{"a", "bb", "x1", "go", "eino", "42"}
 var textPool = []string{"", "", "thinking", "ok ", "Let me check. ", "done", "The answer is 42"}
+
+// argument strings of the scripted tool calls (one of them empty: a call without arguments)
+var argPool = []string{`{"q":"a"}`, `{"q":"bb"}`, `{"q":"x1"}`, `{"q":"go"}`, `{"q":"eino"}`, `{"q":"42"}`, "", "{}"}
+
+// the chunks of a tool result: 1-4 chunks, each empty with probability 1/2; one time in four all empty
+func genToolChunks(r *lib.Rng) []string {
+	n := r.Range(1, 4)
+	out := make([]string, n)
+	allEmpty := r.Chance(1, 4)
+	for i := range out {
+		if !allEmpty && r.Chance(1, 2) {
+			out[i] = r.Pick([]string{"r", "no result", "42", "{\"v\":1}"})
+		}
+	}
+	return out
+}
 
 func splitString(r *lib.Rng, s string, n int) []string {
 	if n <= 1 || len(s) < 2 {
@@ -1353,6 +1413,16 @@ func genCase(r *lib.Rng, tier string) *Case {
 	if r.Chance(1, 6) {
 		c.FailArgs = append(c.FailArgs, `{"q":"`+r.Pick(wordPool)+`"}`)
 	}
+	// tool results other than name(args): the empty string, empty chunks at every position,
+	// results in one / several chunks (the argument strings are drawn more often below)
+	var outArgs []string
+	if r.Chance(2, 5) {
+		for _, w := range r.Perm(len(argPool))[:r.Range(1, 3)] {
+			a := argPool[w]
+			c.Outs = append(c.Outs, ToolOut{Args: a, Chunks: genToolChunks(r)})
+			outArgs = append(outArgs, a)
+		}
+	}
 	// original messages
 	if r.Chance(1, 3) {
 		c.Input = append(c.Input, Msg{Role: 0, Content: "system prompt"})
@@ -1383,7 +1453,10 @@ func genCase(r *lib.Rng, tier string) *Case {
 		if (!last && !r.Chance(1, 15)) || (last && r.Chance(1, 8)) {
 			nc := r.Range(1, 4)
 			for i := 0; i < nc; i++ {
-				cl := TCall{ID: fmt.Sprintf("k%d_%d", k, i), Name: c.Tools[r.Intn(nt)].Name, Args: `{"q":"` + r.Pick(wordPool) + `"}`}
+				cl := TCall{ID: fmt.Sprintf("k%d_%d", k, i), Name: c.Tools[r.Intn(nt)].Name, Args: r.Pick(argPool)}
+				if len(outArgs) > 0 && r.Chance(1, 2) {
+					cl.Args = r.Pick(outArgs)
+				}
 				if unknown && r.Chance(1, 4) {
 					cl.Name = "nosuchtool"
 				}
@@ -1459,6 +1532,11 @@ func (engine) Decode(raw json.RawMessage) (any, error) {
 	}
 	if len(c.Tools) == 0 {
 		return nil, errors.New("case without tools")
+	}
+	for _, o := range c.Outs {
+		if len(o.Chunks) == 0 {
+			return nil, errors.New("a tool result without a chunk: outside the domain (Invoke fails with the empty-stream error, property C17 zero_chunk_outside_domain)")
+		}
 	}
 	if c.MaxStep < 0 || c.RuntimeMax < 0 {
 		return nil, errors.New("negative step limit: a configuration error outside the property's domain (the run fails with 'max run steps limit must be at least 1')")
@@ -1600,6 +1678,41 @@ func (engine) Run(ci any) lib.Result {
 	if c.Checker == "default" && c.contentBeforeToolCall(len(c.Script)) >= 0 {
 		res.Tags = append(res.Tags, "chunking:content-before-toolcall(default checker)")
 	}
+	// what the executed tools answered (Generate run): some whole result empty / some empty chunk
+	// inside a non-empty result / everything name(args)
+	emptyRes, emptyChunk, tabled := false, false, false
+	for _, rnd := range gen.Rounds {
+		for _, cl := range rnd {
+			if kindIn(c.toolsOf(true), cl.Name) == "" {
+				continue
+			}
+			cs := c.toolChunks(cl.Name, cl.Args)
+			whole := strings.Join(cs, "")
+			for _, o := range c.Outs {
+				tabled = tabled || o.Args == cl.Args
+			}
+			for _, ch := range cs {
+				if ch == "" && whole != "" {
+					emptyChunk = true
+				}
+			}
+			emptyRes = emptyRes || whole == ""
+		}
+	}
+	res.Tags = append(res.Tags, fmt.Sprintf("tool-result-empty:%v", emptyRes), fmt.Sprintf("tool-result-with-empty-chunk:%v", emptyChunk),
+		fmt.Sprintf("tool-result-from-table:%v", tabled))
+	if gen.Out.Class == "final" && gen.Out.Msg.Content == "" {
+		res.Tags = append(res.Tags, "generate:empty-answer")
+	}
+	innerEmpty := false
+	for _, st := range c.Script {
+		for i, ch := range st.Chunks {
+			if i > 0 && ch.Content == "" && len(ch.Frags) == 0 {
+				innerEmpty = true
+			}
+		}
+	}
+	res.Tags = append(res.Tags, fmt.Sprintf("model-stream-empty-chunk-after-front:%v", innerEmpty))
 	res.Nontrivial = len(gen.Rounds) >= 1
 	return res
 }
@@ -1654,6 +1767,21 @@ func (engine) Shrink(ci any, stillFails func(any) bool) any {
 		func(c *Case) bool { ch := c.Mod != ""; c.Mod = ""; return ch },
 		func(c *Case) bool { ch := c.Handler; c.Handler = false; return ch },
 		func(c *Case) bool { ch := len(c.FailArgs) > 0; c.FailArgs = nil; return ch },
+		func(c *Case) bool { ch := len(c.Outs) > 0; c.Outs = nil; return ch },
+		func(c *Case) bool {
+			if len(c.Outs) < 2 {
+				return false
+			}
+			c.Outs = c.Outs[:1]
+			return true
+		},
+		func(c *Case) bool {
+			if len(c.Outs) < 2 {
+				return false
+			}
+			c.Outs = c.Outs[1:]
+			return true
+		},
 		func(c *Case) bool { ch := c.PipeStream; c.PipeStream = false; return ch },
 		func(c *Case) bool { ch := c.IndexInWhole; c.IndexInWhole = false; return ch },
 		func(c *Case) bool { ch := len(c.RD) > 0; c.RD = nil; return ch },
